@@ -91,6 +91,35 @@ POOLS = {
 }
 
 
+_LAST_HANG = {}
+
+
+def promote_to_file(repo, fname, found):
+    """a hang reproduced by calling the helper directly on a byte string -> the same bytes carried by a structurally valid file through
+    the registered extractors that reach the helper's module (the input a caller of read_file can actually supply).  -> finding | None"""
+    labels = {pl: l for (l, pl) in record_payloads()}
+    payloads = [("direct-call-witness:" + labels.get(bytes(a).lstrip(b"\x00"), labels.get(bytes(a), "bytes")), a)
+                for a in _LAST_HANG.get("args", []) if isinstance(a, (bytes, bytearray)) and len(a) >= 8]
+    if not payloads:
+        return None
+    done = set()
+    for k, modpath, fn in reaching_extractors(repo, fname):
+        if (modpath, fn) in done:
+            continue
+        try:
+            rec = list(ole_record_cases(repo, k, payloads))
+        except Exception:  # noqa
+            rec = []
+        if not rec:
+            continue
+        done.add((modpath, fn))
+        r = batch_probe(repo, modpath, fn, f"x.{k}", rec, single_timeout=15, per_case=0.5)
+        if r is not None:
+            r["inputs"]["helper_witness"] = found.get("target")
+            return r
+    return None
+
+
 def hang_search(obligation, repo):
     """Small-scope native calls of the function a `decreases#` obligation belongs to, built from its annotations, each under a 3 s alarm."""
     import importlib
@@ -121,10 +150,25 @@ def hang_search(obligation, repo):
         ann = str(ann).replace("typing.", "").replace("List", "list")
         if ann not in POOLS:
             return None
-        pools.append(POOLS[ann])
+        pool = POOLS[ann]
+        if ann == "bytes":
+            # byte-string parameters of carving / record-walking helpers: record streams with boundary values in the length fields
+            pool = pool + [pl for (_l, pl) in record_payloads()] + [b"\x00" * 7 + pl for (_l, pl) in record_payloads() if _l.startswith("png:")][:40]
+        pools.append(pool)
     signal.signal(signal.SIGALRM, _alarm)
     tried = 0
-    for args in itertools.islice(itertools.product(*pools), 400):
+    # every value of every pool once with the other parameters at their first value (so that a long pool is not cut off by the product
+    # order), then the product
+    plan, seen_plan = [], set()
+    for k, pool in enumerate(pools):
+        for v in pool:
+            plan.append(tuple(v if j == k else pools[j][0] for j in range(len(pools))))
+    plan = plan[:900] + list(itertools.islice(itertools.product(*pools), 400))
+    for args in plan:
+        key = repr(args)[:4000]
+        if key in seen_plan:
+            continue
+        seen_plan.add(key)
         tried += 1
         signal.alarm(3)
         try:
@@ -133,6 +177,7 @@ def hang_search(obligation, repo):
                 for _ in r:
                     pass
         except _Timeout:
+            _LAST_HANG["args"] = list(args)
             return {"reproduced": True, "target": f"{modname}.{q}", "inputs": {"args": [repr(a)[:80] for a in args]}, "expected": "terminates",
                     "observed": "no return within 3 s"}
         except Exception:  # noqa
@@ -378,6 +423,116 @@ def fixture_mutants(repo, key, seed=0, per_fixture=70):
             yield f"mutant-{n}:{name}", bytes(b)
 
 
+# ------------------- length-prefixed records: boundary values in every length field (embedded image carving) --
+BOUNDARY32 = (0, 1, 4, 8, 12, 13, 0x7FFFFFFF, 0x80000000, 0x80000001, 0xFFFFFFFF, 0xFFFFFFF0, 0xFFFFFFF4, 0xFFFFFFF8, 0xFFFFFFFC, 0xFFFFFF00, 0xFFFF0000)
+PNG_SIG = b"\x89PNG\r\n\x1a\n"
+
+
+def record_payloads():
+    """(label, bytes): record streams whose length fields take boundary values -- zero, one, header size, sign bit set, minus the
+    header size (the cursor stands still), minus k records (the cursor cycles), huge.  PNG chunks (4-byte big-endian length, type,
+    data, crc), JPEG segments (2-byte big-endian length including itself), DIB headers (little-endian sizes)."""
+    import struct
+    import zlib
+
+    def chunk(typ, data):
+        return struct.pack(">I", len(data)) + typ + data + struct.pack(">I", zlib.crc32(typ + data) & 0xFFFFFFFF)
+    ihdr = chunk(b"IHDR", struct.pack(">IIBBBBB", 1, 1, 8, 0, 0, 0, 0))
+    idat = chunk(b"IDAT", zlib.compress(b"\x00\x00"))
+    iend = chunk(b"IEND", b"")
+    tail = b"\x00" * 16
+    for v in BOUNDARY32:
+        for typ in (b"IHDR", b"IDAT", b"tEXt"):
+            yield f"png:first-chunk-{typ.decode()}-length-{v:08x}", PNG_SIG + struct.pack(">I", v) + typ + b"\x00" * 13 + b"\x00\x00\x00\x00" + iend + tail
+        yield f"png:second-chunk-length-{v:08x}", PNG_SIG + ihdr + struct.pack(">I", v) + b"IDAT" + b"\x00" * 8 + iend + tail
+        yield f"png:iend-length-{v:08x}", PNG_SIG + ihdr + idat + struct.pack(">I", v) + b"IEND" + b"\x00" * 8 + tail
+    for back in (12, 24, 12 + len(ihdr), 12 + len(ihdr) + len(idat)):          # jump back over k earlier chunks: a cycle
+        v = (-back) & 0xFFFFFFFF
+        yield f"png:chunk-length-minus-{back}", PNG_SIG + ihdr + idat + struct.pack(">I", v) + b"tEXt" + b"\x00" * 8 + iend + tail
+    for v in (0, 1, 2, 3, 0x7FFF, 0x8000, 0xFFFE, 0xFFFF):
+        for marker in (0xE0, 0xC0, 0xDB, 0xDA, 0xFE):
+            yield f"jpeg:segment-{marker:02x}-length-{v:04x}", b"\xff\xd8\xff" + bytes([marker]) + struct.pack(">H", v) + b"JFIF\x00" + b"\x00" * 12 + b"\xff\xd9" + tail
+    # OfficeArt / PowerPoint / BIFF-drawing records: 8-byte header (ver+instance u16, type u16, length u32 little-endian), atoms and
+    # containers, behind one well-formed record so that a walker is already in step when it meets the hostile length
+    good = struct.pack("<HHI", 0x0000, 0x0FA8, 4) + b"abcd"
+    for v in BOUNDARY32:
+        for verinst, typ in ((0x0000, 0x0FA8), (0x000F, 0x03E8), (0x6E00, 0xF01E), (0x46A0, 0xF01D)):
+            yield f"rec8:record-{verinst:04x}-{typ:04x}-length-{v:08x}", good + struct.pack("<HHI", verinst, typ, v) + b"\x00" * 40 + good
+    # BIFF records: 4-byte header (id u16, length u16 little-endian)
+    bof = struct.pack("<HH", 0x0809, 4) + b"\x00\x06\x05\x00"
+    for v in (0, 1, 4, 0x7FFF, 0x8000, 0xFFF8, 0xFFFC, 0xFFFF):
+        for rid in (0x003C, 0x00EB, 0x0809):
+            yield f"rec4:record-{rid:04x}-length-{v:04x}", bof + struct.pack("<HH", rid, v) + b"\x00" * 24 + bof
+    for v in BOUNDARY32:
+        yield f"dib:header-size-{v:08x}", struct.pack("<IiiHHII", v, 1, 1, 1, 24, 0, 4) + b"\x00" * 24
+        yield f"dib:image-size-{v:08x}", struct.pack("<IiiHHII", 40, 1, 1, 1, 24, 0, v) + b"\x00" * 24
+        yield f"bmp:file-size-{v:08x}", b"BM" + struct.pack("<IHHI", v, 0, 0, 54) + struct.pack("<IiiHHII", 40, 1, 1, 1, 24, 0, 4) + b"\x00" * 24
+
+
+def ole_hosts(repo, key):
+    """(fixture name, bytes, [(stream name, size)]) -- the smallest OLE fixtures of an extension and their regular (non-mini) streams"""
+    try:
+        import olefile
+    except Exception:  # noqa
+        return
+    files = [f for f in glob.glob(os.path.join(repo, "sharepoint2text/tests/resources/**/*." + key), recursive=True)
+             if os.path.isfile(f) and 512 <= os.path.getsize(f) < 200_000 and "password" not in f]
+    for f in sorted(files, key=os.path.getsize)[:2]:
+        data = open(f, "rb").read()
+        try:
+            if not olefile.isOleFile(io.BytesIO(data)):
+                continue
+            ole = olefile.OleFileIO(io.BytesIO(data))
+            streams = [("/".join(e), ole.get_size("/".join(e))) for e in ole.listdir(streams=True, storages=False)]
+            cutoff = getattr(ole, "minisectorcutoff", 4096)
+            ole.close()
+        except Exception:  # noqa
+            continue
+        streams = sorted([x for x in streams if x[1] >= cutoff], key=lambda x: -x[1])[:4]
+        if streams:
+            yield os.path.basename(f), data, streams
+
+
+def ole_record_cases(repo, key, payloads=None):
+    """a structurally valid OLE file (header, FAT, directory untouched; streams keep their size) whose stream CONTENT carries the
+    hostile records: spliced in near the end and in the middle of each regular stream"""
+    import olefile
+    payloads = list(record_payloads()) if payloads is None else list(payloads)
+    for name, data, streams in ole_hosts(repo, key):
+        for sname, size in streams:
+            try:
+                ole = olefile.OleFileIO(io.BytesIO(data))
+                content = ole.openstream(sname).read()
+                ole.close()
+            except Exception:  # noqa
+                continue
+            # one payload per file when the payloads were chosen by the caller (a witness to carry), otherwise packs of 12 laid out one
+            # after the other on 4-byte boundaries: a scanning walker meets each of them, the file count stays small
+            per = 1 if len(payloads) <= 4 else 12
+            packs = []
+            for g in range(0, len(payloads), per):
+                grp = payloads[g:g + per]
+                blob = b""
+                for (_l, pl) in grp:
+                    blob += pl + b"\x00" * ((-len(pl)) % 4 + 4)
+                lab = grp[0][0] if per == 1 else f"{grp[0][0]} .. {grp[-1][0]} ({len(grp)} records)"
+                packs.append((lab, blob))
+            for where in ("end", "middle", "start"):            # "start": a walker that begins at offset 0 is in step with the records
+                for label, pl in packs:
+                    if len(pl) + 64 > len(content) // 2:
+                        continue
+                    at = len(content) - len(pl) if where == "end" else ((len(content) // 2) & ~3 if where == "middle" else 0)
+                    new = content[:at] + pl + content[at + len(pl):]
+                    buf = io.BytesIO(data)
+                    try:
+                        ole = olefile.OleFileIO(buf, write_mode=True)
+                        ole.write_stream(sname, new)
+                        ole.close()
+                    except Exception:  # noqa
+                        break
+                    yield f"ole:{name}:{sname}@{where}:{label}", buf.getvalue()
+
+
 def directed_probe(repo, fname, seed, budget=240.0):
     """hang search for a `decreases#` obligation of file `fname`: fixture mutants through every extractor that reaches the file"""
     import time
@@ -393,6 +548,14 @@ def directed_probe(repo, fname, seed, budget=240.0):
         r = batch_probe(repo, modpath, fn, f"x.{k}", cases, per_case=2.0)
         if r is not None:
             return r
+        try:
+            rec = list(ole_record_cases(repo, k))
+        except Exception:  # noqa
+            rec = []
+        if rec:
+            r = batch_probe(repo, modpath, fn, f"x.{k}", rec, per_case=0.5)
+            if r is not None:
+                return r
     return None
 
 
@@ -435,6 +598,44 @@ def hang_probe(repo, seed):
                     return {"reproduced": True, "target": f"{modpath}.{fn}", "inputs": {"case": label, "as": k, "bytes": data[:80].decode("latin-1")},
                             "expected": "terminates", "observed": "no result within 45 s (child process killed)"}
     return None
+
+
+def cli_failure_causes(repo, d):
+    """[(label, path)] one input file per CAUSE of a failed run -- the contract gives every cause the same outcome (exit 1, empty
+    stdout, one stderr line), so a CLI that tells causes apart (exit code / stream per exception class) shows on one of these:
+    resource limits (zip bomb ratios in every zip-based format, file over the size limit), protection (fixtures with a password),
+    unsupported type, empty / garbage content per parser family, missing file, a directory"""
+    import zipfile
+    out = []
+
+    def put(name, data):
+        pth = os.path.join(d, name)
+        with open(pth, "wb") as fh:
+            fh.write(data)
+        out.append((name, pth))
+    buf = io.BytesIO()
+    with zipfile.ZipFile(buf, "w", zipfile.ZIP_DEFLATED) as z:
+        z.writestr("word/document.xml", b"\0" * (8 * 1024 * 1024))          # entry ratio ~ 1000 : 1
+    for ext in ("zip", "docx", "xlsx", "pptx", "odt", "epub"):
+        put(f"bomb.{ext}", buf.getvalue())
+    for ext in ("docx", "pdf", "xls", "txt", "7z", "msg"):
+        put(f"empty.{ext}", b"")
+    put("unsupported.xyz", b"hello")
+    put("noext", b"hello")
+    for f in sorted(glob.glob(os.path.join(repo, "sharepoint2text/tests/resources/**/password_protected/*"), recursive=True), key=os.path.getsize)[:8]:
+        if os.path.isfile(f) and os.path.getsize(f) < 2_000_000:
+            put("protected-" + os.path.basename(f), open(f, "rb").read())
+    try:
+        for name in ("over-limit.txt", "over-limit.7z", "over-limit.zip"):
+            pth = os.path.join(d, name)
+            with open(pth, "wb") as fh:
+                fh.truncate(100 * 1024 * 1024 + 1)                             # sparse: no data blocks written
+            out.append((name, pth))
+    except OSError:
+        pass
+    os.mkdir(os.path.join(d, "dir.docx"))
+    out.append(("dir.docx (a directory)", os.path.join(d, "dir.docx")))
+    return out
 
 
 def fresh_cli_cases(repo):
@@ -622,9 +823,14 @@ def find(req):
     if "/decreases#regex-" in (req.get("obligation") or ""):
         return {"reproduced": False, "note": "no pumping text (pattern not read by the static analysis)"}
     if "/decreases#" in (req.get("obligation") or ""):
+        _LAST_HANG.clear()
         r = hang_search(req["obligation"], repo)
         if r is not None and r.get("reproduced"):
-            return r
+            try:
+                r2 = promote_to_file(repo, req["obligation"].split("/", 1)[1].split("::")[0], r)
+            except Exception:  # noqa
+                r2 = None
+            return r2 or r
         ob = req["obligation"]
         archive_first = any(w in ob for w in ("sevenzip", "archive", "7z"))
         if archive_first:
@@ -739,6 +945,13 @@ def find(req):
         t = os.path.join(d, "ok.txt")
         open(t, "w").write("hello")
         cases += [[t], [t, "--json"], [os.path.join(d, "missing.pdf")]]
+        try:
+            for _label, pth in cli_failure_causes(repo, d):
+                cases.append([pth])
+                if _label.startswith(("bomb.", "over-limit", "protected-")):
+                    cases.append([pth, "--json"])
+        except Exception:  # noqa
+            pass
         for argv in cases:
             tried += 1
             out, err = io.StringIO(), io.StringIO()
@@ -764,4 +977,4 @@ def find(req):
 
 
 def rerun(stored):
-    return find({"function": stored.get("target", "")})
+    return find({"function": stored.get("target", ""), "obligation": stored.get("obligation") or ""})
